@@ -15,7 +15,7 @@ theorem sendMatches_fold_sublist (m : Msg) (s a : Option ConnId) : ∀ (rs : Lis
     obtain ⟨l, hl, hs⟩ := sendMatches_fold_sublist m s a rs (sendOne t s a r m)
     rcases (sendOne_spec t s a r m).2 with ho | ho
     · exact ⟨l, by rw [hl, ho], hs.cons _⟩
-    · exact ⟨Out.deliver r m :: l, by rw [hl, ho]; simp, hs.cons₂ _⟩
+    · exact ⟨Out.deliver r m :: l, by rw [hl, ho]; simp, hs.cons_cons _⟩
 
 theorem sendMatches_sublist (t : Tx) (s a : Option ConnId) (m : Msg) :
     ∃ l, (sendMatches t s a m).out = t.out ++ l ∧
@@ -63,35 +63,52 @@ theorem unicast_reaches_owner_once (t : Tx) (c a : ConnId) (m : Msg) (d : Bytes)
     ∃ l, (route t c m).1.out = t.out ++ Out.deliver a m :: l ∧
       l.Sublist ((recipients (t.setPending p).bus (some c) (some a) m).map fun r => Out.deliver r m) ∧
       a ∉ recipients (t.setPending p).bus (some c) (some a) m := by
-  have hsa : sendAddressed t (some c) a m = ((t.setPending p).emit (.deliver a m), none) := by
+  have hcap := capture_frame t (some c) (some a) m
+  have hsa : sendAddressed (capture t (some c) (some a) m) (some c) a m =
+      (((capture t (some c) (some a) m).setPending p).emit (.deliver a m), none) := by
     unfold sendAddressed
+    rw [hcap.1]
     simp only [hpol, hfd, Bool.false_eq_true, if_false]
+  have hbus : ((capture t (some c) (some a) m).setPending p).bus = (t.setPending p).bus := by
+    show ({ (capture t (some c) (some a) m).bus with pending := p } : Bus) = { t.bus with pending := p }
+    rw [hcap.1]
   unfold route
   simp only [hd, ha, dispatchMatches, hsa]
-  obtain ⟨l, hl, hs⟩ := sendMatches_sublist ((t.setPending p).emit (.deliver a m)) (some c) (some a) m
+  obtain ⟨l, hl, hs⟩ := sendMatches_sublist (((capture t (some c) (some a) m).setPending p).emit (.deliver a m)) (some c) (some a) m
+  have hbus2 : (((capture t (some c) (some a) m).setPending p).emit (.deliver a m)).bus = (t.setPending p).bus := hbus
+  rw [hbus2] at hs
   refine ⟨trivial, l, ?_, hs, addressed_not_recipient _ _ a m⟩
-  rw [hl]; simp
+  rw [hl]
+  show ((capture t (some c) (some a) m).out ++ [Out.deliver a m]) ++ l = _
+  rw [hcap.2]; simp
 
 /-- **No owner: nothing is delivered, the sender gets one error.** -/
 theorem no_owner_no_delivery (t : Tx) (c : ConnId) (m : Msg) (d : Bytes)
     (hd : m.dest = some d) (ha : t.bus.primary? d = none) :
-    ∃ e, route t c m = (t, some e) ∧ (e = .nameHasNoOwner ∨ e = .serviceUnknown) := by
+    ∃ e, (route t c m).2 = some e ∧ (e = .nameHasNoOwner ∨ e = .serviceUnknown) ∧
+      (route t c m).1.bus = t.bus ∧ (route t c m).1.out = t.out := by
   unfold route
   simp only [hd, ha]
+  have hcap := capture_frame t (some c) none m
   by_cases h : m.noAutoStart = true
-  · exact ⟨.nameHasNoOwner, by simp [h], Or.inl rfl⟩
-  · exact ⟨.serviceUnknown, by simp [h], Or.inr rfl⟩
+  · exact ⟨.nameHasNoOwner, by simp [h], Or.inl rfl, hcap.1, hcap.2⟩
+  · exact ⟨.serviceUnknown, by simp [h], Or.inr rfl, hcap.1, hcap.2⟩
 
 /-- **Refused: nothing is delivered.** When the gate refuses the addressed delivery, no copy goes
     anywhere (eavesdroppers included). -/
 theorem refused_no_delivery (t : Tx) (c a : ConnId) (m : Msg) (d : Bytes) (p : List Pending) (e : Err)
     (hd : m.dest = some d) (ha : t.bus.primary? d = some a)
     (hpol : checkPolicy t.bus (some c) (some a) (some a) m = (p, some e)) :
-    route t c m = (t.setPending p, some e) := by
-  have hsa : sendAddressed t (some c) a m = (t.setPending p, some e) := by
-    unfold sendAddressed; simp only [hpol]
+    (route t c m).2 = some e ∧ (route t c m).1.out = t.out ∧ (route t c m).1.bus = (t.setPending p).bus := by
+  have hcap := capture_frame t (some c) (some a) m
+  have hsa : sendAddressed (capture t (some c) (some a) m) (some c) a m =
+      ((capture t (some c) (some a) m).setPending p, some e) := by
+    unfold sendAddressed; rw [hcap.1]; simp only [hpol]
   unfold route
   simp only [hd, ha, dispatchMatches, hsa]
+  refine ⟨trivial, hcap.2, ?_⟩
+  show ({ (capture t (some c) (some a) m).bus with pending := p } : Bus) = { t.bus with pending := p }
+  rw [hcap.1]
 
 theorem replySerial_setField (m : Msg) (f : Field) (h : f.code ≠ FIELD_REPLY_SERIAL) :
     (m.setField f).replySerial = m.replySerial := by
@@ -126,7 +143,8 @@ theorem undeliverable_one_error (t : Tx) (c : ConnId) (m : Msg) (e : Err) :
     (finish (t, some e) c m).2 = t.out ∨
     ∃ x, (finish (t, some e) c m).2 = t.out ++ [Out.deliver c x] ∧ x.mtype = 3 ∧ x.replySerial = m.serial ∧
       x.sender = some BUS_NAME := by
-  simp only [finish, sendError]
+  show (sendError t c m e).out = t.out ∨ ∃ x, (sendError t c m e).out = _ ∧ _
+  simp only [sendError]
   rcases (sendFromDriver_spec t c (mkError m e)).2 with h | h
   · exact Or.inl h
   · refine Or.inr ⟨_, h, by rw [stampDriver_mtype]; rfl, ?_, (stampDriver_busMade t.bus c (known_mkError m e)).1⟩
@@ -156,7 +174,7 @@ theorem forwarded_rest_intact (m0 : Msg) (name : Bytes) :
 /-! ### order -/
 
 theorem run_snd_append (tbl : List IfaceRow) (b : Bus) (evs : List Ev) (ev : Ev) :
-    (run tbl b (evs ++ [ev])).2 = (run tbl b evs).2 ++ [(step tbl (run tbl b evs).1 ev).2] := by
+    (run tbl b (evs ++ [ev])).2 = (run tbl b evs).2 ++ [(step tbl (run tbl b evs).1 ev).out] := by
   unfold run
   rw [List.foldl_append]
   rfl
